@@ -81,7 +81,7 @@ def r14a(ctx):
         ctx.fail('R14a', fn, 'inner-loop', '-', 'cannot establish: ' + p)
     ctx.floor('R14a', 'distinct per-iteration effect states of the accounting loop', len(states), 3)
     nupd = sum(len(v) for v in eff.values())
-    ctx.floor('R14a', 'tracked additive updates in the accounting loop', nupd, 12)
+    ctx.floor('R14a', 'tracked additive updates in the accounting loop', nupd, 8)
     # expression lookup for I3
     term_expr = {}
     for es in eff.values():
